@@ -881,10 +881,38 @@ func predicateBody(c *Ctx, info *types.Info, call *ast.CallExpr) (ast.Expr, *typ
 	if !ok || len(r.Results) != 1 {
 		return nil, nil
 	}
-	for _, st := range d.Body.List[:len(d.Body.List)-1] {
-		if as, ok := st.(*ast.AssignStmt); !ok || as.Tok != token.DEFINE {
+	// the statements before: definitions, and early answers 'if A { return true|false }', folded into the expression
+	// (if A { return true }; return B  is  A || B;  if A { return false }; return B  is  !A && B)
+	expr := r.Results[0]
+	for i := len(d.Body.List) - 2; i >= 0; i-- {
+		switch st := d.Body.List[i].(type) {
+		case *ast.AssignStmt:
+			if st.Tok != token.DEFINE {
+				return nil, nil
+			}
+		case *ast.IfStmt:
+			if st.Init != nil || st.Else != nil || len(st.Body.List) != 1 {
+				return nil, nil
+			}
+			er, ok := st.Body.List[0].(*ast.ReturnStmt)
+			if !ok || len(er.Results) != 1 {
+				return nil, nil
+			}
+			id, ok := ast.Unparen(er.Results[0]).(*ast.Ident)
+			if !ok {
+				return nil, nil
+			}
+			switch id.Name {
+			case "true":
+				expr = &ast.BinaryExpr{X: &ast.ParenExpr{X: st.Cond}, Op: token.LOR, Y: &ast.ParenExpr{X: expr}}
+			case "false":
+				expr = &ast.BinaryExpr{X: &ast.UnaryExpr{Op: token.NOT, X: &ast.ParenExpr{X: st.Cond}}, Op: token.LAND, Y: &ast.ParenExpr{X: expr}}
+			default:
+				return nil, nil
+			}
+		default:
 			return nil, nil
 		}
 	}
-	return r.Results[0], dp.TypesInfo
+	return expr, dp.TypesInfo
 }
